@@ -109,6 +109,19 @@ def make_rec_observer(sched, jitter=None):
     return RecObserver()
 
 
+class FakePlayer:
+    """stands in for a PyAudio player: records what it is asked to play"""
+
+    def __init__(self, sched):
+        self.sched = sched
+        self.played = []
+
+    def play(self, data, progress_bar=False, **kwargs):
+        if self.sched is not None:
+            self.sched.yield_point("player-play")
+        self.played.append(bytes(data))
+
+
 def split_kwargs(case):
     rec, win = case["audio"], case["win"]
     w = rec["B"] / rec["sr"]  # the tokenizer worker is an AudioReader: window = block duration
@@ -183,6 +196,7 @@ def run_pipeline(case, scheduled=True, stop_step=None, jitter=None, endless=Fals
             out.proxy = proxy
             observers = []
             out.recs, out.regsave, out.joiner, out.printer = [], None, None, None
+            out.player, out.command = None, None
             for kind in case["observers"]:
                 if kind == "rec":
                     o = make_rec_observer(sched, jitter)
@@ -194,6 +208,16 @@ def run_pipeline(case, scheduled=True, stop_step=None, jitter=None, endless=Fals
                     out.tmpl = os.path.join(d, case.get("tmpl", "det_{id}") + "." + case.get("ext", "wav"))
                     o = W.RegionSaverWorker(out.tmpl)
                     out.regsave = o
+                elif kind == "player":
+                    out.player = FakePlayer(sched)
+                    o = W.PlayerWorker(out.player)
+                elif kind == "command":
+                    # one temporary wav per detection (the worker never removes them): keep them in the run dir
+                    out.cmd_dir = os.path.join(d, "cmdtmp")
+                    os.makedirs(out.cmd_dir, exist_ok=True)
+                    out.cmd_log = os.path.join(d, "cmd.log")
+                    o = W.CommandLineWorker("cat {file} >> " + out.cmd_log)
+                    out.command = o
                 elif kind == "joiner":
                     k, frac = case.get("join_sil", [0, 0])
                     out.join_sil = (k + frac) / sr
@@ -208,6 +232,16 @@ def run_pipeline(case, scheduled=True, stop_step=None, jitter=None, endless=Fals
             out.tokenizer = tokenizer
             workers = ([saver] if saver else []) + observers + [tokenizer]
             sys.stdout = stdout
+            import resource
+            import tempfile
+
+            old_tmp, old_lim = tempfile.tempdir, None
+            if out.command is not None:
+                tempfile.tempdir = out.cmd_dir
+                # descriptors must not pile up with the number of detections: allow this run 40 more
+                # than are open now (restored below)
+                old_lim = resource.getrlimit(resource.RLIMIT_NOFILE)
+                resource.setrlimit(resource.RLIMIT_NOFILE, (min(len(os.listdir("/proc/self/fd")) + 40, old_lim[0]), old_lim[1]))
             try:
                 if saver is not None:
                     saver.start()
@@ -249,6 +283,9 @@ def run_pipeline(case, scheduled=True, stop_step=None, jitter=None, endless=Fals
                 pass
             finally:
                 sys.stdout = old_stdout
+                tempfile.tempdir = old_tmp
+                if old_lim is not None:
+                    resource.setrlimit(resource.RLIMIT_NOFILE, old_lim)
             if scheduled:
                 out.failure = sched.failure
                 sched.finish()
